@@ -70,8 +70,9 @@ Proof.
   - destruct g as [[|i st] fr]; simpl in Hn; [lia|]. simpl firstn. simpl skipn. cbn [map take_all ai_group].
     rewrite Hg. unfold take1. cbn [ai_frac ai_index g_idx g_fr]. rewrite N.eqb_refl. simpl existsb. rewrite N.eqb_refl. simpl.
     rewrite N.eqb_refl.
-    rewrite (IH (set_at gs gi (mkGroup st fr)) gi (mkGroup st fr)); [|eapply get_at_set_at_same'; eauto | simpl; lia].
-    simpl. rewrite set_at_set_at. auto.
+    pose proof (IH (set_at gs gi (mkGroup st fr)) gi (mkGroup st fr)) as X. simpl in X.
+    rewrite X; [|eapply get_at_set_at_same'; eauto | lia].
+    rewrite set_at_set_at. auto.
 Qed.
 
 Lemma take_indices_spec gs gi g units out st out' :
@@ -103,18 +104,23 @@ Proof.
     destruct (N.eqb_spec fr 0); [congruence|]. rewrite Ei. destruct (N.leb_spec fr f); [auto|lia].
   - destruct (g_idx g) as [|i rest] eqn:Es; [discriminate|]. inversion Ht; subst.
     eexists. split; [reflexivity|]. simpl. repeat split; auto. rewrite Hg. unfold take1. simpl.
-    destruct (N.eqb_spec fr 0); [congruence|]. rewrite (Hsf i) by (rewrite Es; left; auto).
-    rewrite Es. simpl. rewrite N.eqb_refl. simpl. destruct (N.ltb_spec fr FPU); [|lia]. rewrite N.eqb_refl. auto.
+    destruct (N.eqb_spec fr 0); [congruence|]. rewrite (Hsf i) by (first [left; reflexivity | rewrite Es; left; reflexivity]).
+    rewrite Es. simpl. rewrite N.eqb_refl. simpl. destruct (N.ltb_spec fr FPU); [|lia]. rewrite ?N.eqb_refl. auto.
+Qed.
+
+Lemma shape_cons_whole ix rest : whole ix -> shape_ok rest = true -> shape_ok (ix :: rest) = true.
+Proof.
+  unfold whole. intros Hx H. destruct rest as [|y rest].
+  - simpl. rewrite Hx. reflexivity.
+  - change (shape_ok (ix :: y :: rest)) with ((ai_frac ix =? 0) && shape_ok (y :: rest)). rewrite Hx, N.eqb_refl, H. auto.
 Qed.
 
 Lemma shape_ok_app ws fs :
   Forall whole ws -> (fs = [] \/ exists F, fs = [F] /\ ai_frac F < FPU) -> shape_ok (ws ++ fs) = true.
 Proof.
-  intros Hw Hf. induction Hw as [|ix ws Hx Hw IH]; simpl.
+  intros Hw Hf. induction Hw as [|ix ws Hx Hw IH].
   - destruct Hf as [->|(F & -> & HF)]; simpl; auto. lia.
-  - destruct (ws ++ fs) eqn:E.
-    + unfold whole in Hx. rewrite Hx. pose proof FPU_pos. lia.
-    + rewrite <- E. rewrite IH. unfold whole in Hx. rewrite Hx, N.eqb_refl. auto.
+  - simpl app. apply shape_cons_whole; auto.
 Qed.
 
 Lemma total_app ws fs fr :
@@ -133,30 +139,239 @@ Proof. unfold split. simpl. unfold FPU, FRACTIONS_PER_UNIT. lia. Qed.
 Theorem claim_complete_indices full g rid rq wit p' ra :
   gwf g -> pool_claim (PIndices full g) rid rq wit = Ok (p', ra) -> claim_ok (PIndices full g) p' rid rq ra = true.
 Proof.
-  intros Hwf Hc. simpl in Hc. destruct (split_recompose (req_amount rq full)) as [Hrec Hfr].
+  intros Hwf Hc. unfold pool_claim in Hc. destruct (split_recompose (req_amount rq full)) as [Hrec Hfr].
   destruct (split (req_amount rq full)) as [units fr] eqn:Es. simpl in Hrec, Hfr.
-  destruct (take_indices (g_idx g) 0 units []) as [[st out1]| |] eqn:Et; simpl in Hc; try discriminate.
-  destruct (take_fraction_index_or_split (mkGroup st (g_fr g)) fr 0 wit out1) as [[g2 out2]| |] eqn:Ef; simpl in Hc; try discriminate.
-  inversion Hc; subst p' ra. clear Hc.
+  destruct (take_indices (g_idx g) 0 units []) as [[st out1]| |] eqn:Et; cbn [bind] in Hc; try discriminate.
+  destruct (take_fraction_index_or_split (mkGroup st (g_fr g)) fr 0 wit out1) as [[g2 out2]| |] eqn:Ef; cbn [bind] in Hc; try discriminate.
+  inversion Hc; subst. clear Hc.
   destruct (take_indices_spec [g] 0 g units [] st out1 (get_at_single g) Et) as (ws & E1 & Hw & Hl & Hg0 & Hta).
   simpl in E1. subst out1. change (set_at [g] 0 (mkGroup st (g_fr g))) with [mkGroup st (g_fr g)] in Hta.
   assert (Hwf1 : gwf (mkGroup st (g_fr g))).
   { assert (X : gs_wf [mkGroup st (g_fr g)]) by (eapply take_all_wf; [|eauto]; constructor; auto). inversion X; auto. }
   destruct (take_fraction_spec [mkGroup st (g_fr g)] 0 _ fr wit ws g2 out2 (get_at_single _) Hwf1 Hfr Ef) as [(Hz & -> & ->)|(Hz & F & -> & HF & HgF & HtF)].
   - unfold claim_ok. cbn [ra_res ra_amount ra_indices pool_full_size pool_groups]. rewrite !N.eqb_refl. simpl andb.
-    rewrite (shape_ok_app ws []) by auto. rewrite app_nil_r in *. unfold ra_total. cbn [ra_indices].
-    rewrite <- (app_nil_r ws) at 1. rewrite (total_app ws [] 0) by auto. rewrite Hl, Hz in *.
-    rewrite Hrec, N.eqb_refl, Hta. simpl. rewrite group_eqb_refl. auto.
+    assert (S1 : shape_ok ws = true) by (rewrite <- (app_nil_r ws); apply shape_ok_app; auto).
+    assert (S2 : ra_total (mkRalloc rid (req_amount rq full) ws) = req_amount rq full).
+    { unfold ra_total; cbn [ra_indices]. rewrite <- (app_nil_r ws). rewrite (total_app ws [] 0) by auto. lia. }
+    rewrite S1, S2, N.eqb_refl, Hta. simpl. rewrite group_eqb_refl. auto.
   - unfold claim_ok. cbn [ra_res ra_amount ra_indices pool_full_size pool_groups]. rewrite !N.eqb_refl. simpl andb.
-    rewrite (shape_ok_app ws [F]) by (auto; right; exists F; split; auto; lia).
-    unfold ra_total. cbn [ra_indices]. rewrite (total_app ws [F] fr) by (auto; right; split; auto; exists F; auto).
-    rewrite Hl, Hrec, N.eqb_refl. rewrite take_all_app, Hta.
+    assert (S1 : shape_ok (ws ++ [F]) = true) by (apply shape_ok_app; auto; right; exists F; split; auto; lia).
+    assert (S2 : ra_total (mkRalloc rid (req_amount rq full) (ws ++ [F])) = req_amount rq full).
+    { unfold ra_total; cbn [ra_indices]. rewrite (total_app ws [F] fr) by (auto; right; split; auto; exists F; auto). lia. }
+    rewrite S1, S2, N.eqb_refl. rewrite take_all_app, Hta.
     change (set_at [mkGroup st (g_fr g)] 0 g2) with [g2] in HtF. rewrite HtF. simpl. rewrite group_eqb_refl. auto.
 Qed.
 
 Theorem claim_complete_sum full free rid rq wit p' ra :
   pool_claim (PSum full free) rid rq wit = Ok (p', ra) -> claim_ok (PSum full free) p' rid rq ra = true.
 Proof.
-  simpl. destruct (N.ltb_spec free (req_amount rq full)); [discriminate|]. intros H; inversion H; subst.
+  simpl. destruct (N.ltb_spec free (req_amount rq full)); [discriminate|]. intros Hx; inversion Hx; subst.
   unfold claim_ok. simpl. rewrite !N.eqb_refl. simpl. destruct (N.leb_spec (req_amount rq full) free); [auto|lia].
+Qed.
+
+(* ---------- whole takes commute: take_all over whole indices is invariant under permutation ---------- *)
+Lemma memN_removeN_other x y l : x <> y -> memN y (removeN x l) = memN y l.
+Proof.
+  intros Hxy. induction l as [|z l IH]; simpl; auto.
+  destruct (N.eqb_spec z x).
+  - subst. unfold memN. simpl. destruct (N.eqb_spec y x); [congruence|auto].
+  - unfold memN in *. simpl. rewrite IH. auto.
+Qed.
+
+Lemma take1_whole g ix : whole ix ->
+  take1 g ix = if memN (ai_index ix) (g_idx g) then Some (mkGroup (removeN (ai_index ix) (g_idx g)) (g_fr g)) else None.
+Proof. unfold whole. intros H. rewrite take1_memN. cbv zeta. rewrite H, N.eqb_refl. auto. Qed.
+
+Lemma aidx_eta ix i g f : ai_index ix = i -> ai_group ix = g -> ai_frac ix = f -> ix = mkAidx i g f.
+Proof. destruct ix; simpl; intros; subst; auto. Qed.
+
+Definition obind {A B} (o : option A) (f : A -> option B) : option B := match o with Some a => f a | None => None end.
+
+Lemma take1_comm g x y : whole x -> whole y -> ai_index x <> ai_index y ->
+  obind (take1 g x) (fun g1 => take1 g1 y) = obind (take1 g y) (fun g1 => take1 g1 x).
+Proof.
+  intros Hx Hy Hne. rewrite !take1_whole by auto.
+  destruct (memN (ai_index x) (g_idx g)) eqn:Mx, (memN (ai_index y) (g_idx g)) eqn:My; simpl;
+    rewrite ?take1_whole by auto; simpl.
+  - rewrite ?memN_removeN_other by auto. rewrite ?memN_removeN_other by (intros E; apply Hne; auto).
+    rewrite Mx, My. rewrite removeN_comm. auto.
+  - rewrite ?memN_removeN_other by auto. rewrite ?memN_removeN_other by (intros E; apply Hne; auto). rewrite ?My. auto.
+  - rewrite ?memN_removeN_other by auto. rewrite ?memN_removeN_other by (intros E; apply Hne; auto). rewrite ?Mx. auto.
+  - auto.
+Qed.
+
+Lemma take_two_same gs x y : ai_group x = ai_group y ->
+  take_all gs [x; y] =
+  match get_at gs (ai_group x) with
+  | Ok g => match obind (take1 g x) (fun g1 => take1 g1 y) with Some g2 => Some (set_at gs (ai_group x) g2) | None => None end
+  | _ => None
+  end.
+Proof.
+  intros Eg. simpl. rewrite <- Eg. destruct (get_at gs (ai_group x)) as [g| |] eqn:Hg; auto.
+  destruct (take1 g x) as [g1|]; simpl; auto.
+  rewrite (get_at_set_at_same' _ _ _ _ Hg). destruct (take1 g1 y); auto. rewrite set_at_set_at. auto.
+Qed.
+
+Lemma take_swap_whole gs x y : whole x -> whole y -> take_all gs [x; y] = take_all gs [y; x].
+Proof.
+  intros Hx Hy. destruct (N.eq_dec (ai_group x) (ai_group y)) as [Eg|Eg].
+  - destruct (N.eq_dec (ai_index x) (ai_index y)) as [Ei|Ei].
+    + assert (x = y). { rewrite (aidx_eta x _ _ _ eq_refl eq_refl Hx). rewrite (aidx_eta y _ _ _ eq_refl eq_refl Hy). congruence. }
+      subst; auto.
+    + rewrite (take_two_same gs x y Eg), (take_two_same gs y x (eq_sym Eg)). rewrite <- Eg.
+      destruct (get_at gs (ai_group x)); auto. rewrite (take1_comm a x y); auto.
+  - simpl.
+    destruct (get_at gs (ai_group x)) as [gx| |] eqn:Hgx; destruct (get_at gs (ai_group y)) as [gy| |] eqn:Hgy; auto;
+      try (destruct (take1 gx x); auto; rewrite get_at_set_at_other by auto; rewrite Hgy; auto; fail);
+      try (destruct (take1 gy y); auto; rewrite get_at_set_at_other by auto; rewrite Hgx; auto; fail).
+    destruct (take1 gx x) as [gx'|] eqn:Tx; destruct (take1 gy y) as [gy'|] eqn:Ty;
+      rewrite ?get_at_set_at_other by auto; rewrite ?Hgx, ?Hgy, ?Tx, ?Ty; auto.
+    rewrite set_at_comm by auto. auto.
+Qed.
+
+Lemma take_all_cons gs ix l :
+  take_all gs (ix :: l) = match take_all gs [ix] with Some gs1 => take_all gs1 l | None => None end.
+Proof. simpl. destruct (get_at gs (ai_group ix)); auto. destruct (take1 a ix); auto. Qed.
+
+Lemma take_all_perm_whole a b : Permutation a b -> Forall whole a -> forall gs, take_all gs a = take_all gs b.
+Proof.
+  induction 1 as [|x l l' P IH|x y l|l l' l'' P1 IH1 P2 IH2]; intros Hw gs; auto.
+  - inversion Hw; subst. rewrite (take_all_cons gs x l), (take_all_cons gs x l'). destruct (take_all gs [x]); auto.
+  - inversion Hw as [|? ? Hy Hw']; subst. inversion Hw' as [|? ? Hx Hw'']; subst.
+    change (y :: x :: l) with ([y; x] ++ l). change (x :: y :: l) with ([x; y] ++ l).
+    rewrite !take_all_app. rewrite (take_swap_whole gs y x); auto.
+  - rewrite IH1 by auto. apply IH2. eapply Permutation_Forall; eauto.
+Qed.
+
+(* ---------- sorting keeps the fractional index last ---------- *)
+Lemma insert_before_frac w X F : whole w -> ai_frac F <> 0 ->
+  insert_sorted aidx_le w (X ++ [F]) = insert_sorted aidx_le w X ++ [F].
+Proof.
+  unfold whole. intros Hw HF. induction X as [|x X IH]; simpl.
+  - unfold aidx_le. rewrite Hw. destruct (N.ltb_spec 0 (ai_frac F)); [auto|lia].
+  - destruct (aidx_le w x); simpl; auto. rewrite IH. auto.
+Qed.
+
+Lemma isort_whole_frac ws F : Forall whole ws -> ai_frac F <> 0 -> isort aidx_le (ws ++ [F]) = isort aidx_le ws ++ [F].
+Proof.
+  intros Hw HF. induction Hw as [|w ws Hx Hw IH]; simpl; auto.
+  rewrite IH. apply insert_before_frac; auto.
+Qed.
+
+(* ---------- the scatter loop (Scatter, and Compact / ForceCompact with the solver's groups) ---------- *)
+Lemma scatter_loop_spec fuel : forall gs sel units fr pos wit out gs' out',
+  gs_wf gs -> fr < FPU ->
+  scatter_loop fuel gs sel units fr pos wit out = Ok (gs', out') ->
+  exists ws fs, out' = out ++ ws ++ fs /\ Forall whole ws /\ len ws = units
+    /\ (fr = 0 /\ fs = [] \/ fr <> 0 /\ exists F, fs = [F] /\ ai_frac F = fr)
+    /\ take_all gs (ws ++ fs) = Some gs'.
+Proof.
+  induction fuel as [|fuel IH]; intros gs sel units fr pos wit out gs' out' Hwf Hfr Hl; simpl in Hl.
+  - destruct (N.eqb_spec units 0); destruct (N.eqb_spec fr 0); simpl in Hl; try discriminate.
+    inversion Hl; subst. exists [], []. rewrite !app_nil_r. repeat split; auto.
+  - destruct (N.eqb_spec units 0) as [Hu|Hu]; destruct (N.eqb_spec fr 0) as [Hf0|Hf0]; simpl in Hl.
+    + inversion Hl; subst. exists [], []. rewrite !app_nil_r. repeat split; auto.
+    + (* units = 0, the fraction *)
+      destruct (match sel with Some s => get_at s pos | None => Ok pos end) as [gi| |] eqn:Egi; simpl in Hl; try discriminate.
+      destruct (get_at gs gi) as [g| |] eqn:Eg; simpl in Hl; try discriminate.
+      subst units. destruct (N.ltb_spec 0 0); [lia|].
+      assert (Hgw : gwf g) by (apply get_at_ok in Eg; destruct Eg; eapply Forall_nth; eauto).
+      destruct (best_fraction_match (g_fr g) fr wit) as [[[i f]|]| |] eqn:Eb; simpl in Hl; try discriminate.
+      * apply bfm_some in Eb. destruct Eb as [Ei Hle].
+        destruct fuel; simpl in Hl; rewrite ?N.eqb_refl in Hl; simpl in Hl; inversion Hl; subst;
+          (exists [], [mkAidx i gi fr]; split; [reflexivity|]; split; [constructor|]; split; [reflexivity|];
+           split; [right; split; auto; eexists; split; reflexivity|];
+           simpl; rewrite Eg; unfold take1; simpl; destruct (N.eqb_spec fr 0); [congruence|]; rewrite Ei;
+           destruct (N.leb_spec fr f); [auto|lia]).
+      * destruct (g_idx g) as [|i rest] eqn:Es.
+        -- eapply IH; eauto.
+        -- destruct Hgw as (Hnd & Hndk & Hsf & Hlt).
+           destruct fuel; simpl in Hl; rewrite ?N.eqb_refl in Hl; simpl in Hl; inversion Hl; subst;
+             (exists [], [mkAidx i gi fr]; split; [reflexivity|]; split; [constructor|]; split; [reflexivity|];
+              split; [right; split; auto; eexists; split; reflexivity|];
+              simpl; rewrite Eg; unfold take1; simpl; destruct (N.eqb_spec fr 0); [congruence|];
+              rewrite (Hsf i) by (rewrite Es; left; auto); rewrite Es; simpl; rewrite N.eqb_refl; simpl;
+              destruct (N.ltb_spec fr FPU); [|lia]; rewrite ?N.eqb_refl; auto).
+    + (* units > 0, fr = 0 *)
+      destruct (match sel with Some s => get_at s pos | None => Ok pos end) as [gi| |] eqn:Egi; simpl in Hl; try discriminate.
+      destruct (get_at gs gi) as [g| |] eqn:Eg; simpl in Hl; try discriminate.
+      destruct (N.ltb_spec 0 units); [|lia].
+      destruct (g_idx g) as [|i rest] eqn:Es.
+      * eapply IH; eauto.
+      * assert (Hgw : gwf g) by (apply get_at_ok in Eg; destruct Eg; eapply Forall_nth; eauto).
+        assert (Ht1 : take_all gs [mkAidx i gi 0] = Some (set_at gs gi (mkGroup rest (g_fr g)))).
+        { simpl. rewrite Eg. unfold take1. simpl. rewrite Es. simpl. rewrite ?N.eqb_refl. simpl. rewrite ?N.eqb_refl. auto. }
+        assert (Hwf1 : gs_wf (set_at gs gi (mkGroup rest (g_fr g)))) by (eapply take_all_wf; eauto).
+        destruct (IH _ _ _ _ _ _ _ _ _ Hwf1 Hfr Hl) as (ws & fs & E & Hw & Hlen & Hfs & Hta).
+        exists (mkAidx i gi 0 :: ws), fs. split; [rewrite E, <- app_assoc; reflexivity|].
+        split; [constructor; auto; reflexivity|]. split; [unfold len in *; simpl length; lia|]. split; auto.
+        change ((mkAidx i gi 0 :: ws) ++ fs) with ([mkAidx i gi 0] ++ (ws ++ fs)). rewrite take_all_app, Ht1. auto.
+    + (* units > 0, fr > 0: still taking whole indices *)
+      destruct (match sel with Some s => get_at s pos | None => Ok pos end) as [gi| |] eqn:Egi; simpl in Hl; try discriminate.
+      destruct (get_at gs gi) as [g| |] eqn:Eg; simpl in Hl; try discriminate.
+      destruct (N.ltb_spec 0 units); [|lia].
+      destruct (g_idx g) as [|i rest] eqn:Es.
+      * eapply IH; eauto.
+      * assert (Hgw : gwf g) by (apply get_at_ok in Eg; destruct Eg; eapply Forall_nth; eauto).
+        assert (Ht1 : take_all gs [mkAidx i gi 0] = Some (set_at gs gi (mkGroup rest (g_fr g)))).
+        { simpl. rewrite Eg. unfold take1. simpl. rewrite Es. simpl. rewrite ?N.eqb_refl. simpl. rewrite ?N.eqb_refl. auto. }
+        assert (Hwf1 : gs_wf (set_at gs gi (mkGroup rest (g_fr g)))) by (eapply take_all_wf; eauto).
+        destruct (IH _ _ _ _ _ _ _ _ _ Hwf1 Hfr Hl) as (ws & fs & E & Hw & Hlen & Hfs & Hta).
+        exists (mkAidx i gi 0 :: ws), fs. split; [rewrite E, <- app_assoc; reflexivity|].
+        split; [constructor; auto; reflexivity|]. split; [unfold len in *; simpl length; lia|]. split; auto.
+        change ((mkAidx i gi 0 :: ws) ++ fs) with ([mkAidx i gi 0] ++ (ws ++ fs)). rewrite take_all_app, Ht1. auto.
+Qed.
+
+Lemma len_perm {A} (a b : list A) : Permutation a b -> len a = len b.
+Proof. intros P. unfold len. rewrite (Permutation_length P). auto. Qed.
+
+Lemma claim_scatter_complete gs sel a wit gs' out :
+  gs_wf gs -> claim_scatter_from_groups a gs sel wit = Ok (gs', out) ->
+  shape_ok out = true /\ fold_right N.add 0 (map held_ix out) = a /\ take_all gs out = Some gs'.
+Proof.
+  intros Hwf Hc. unfold claim_scatter_from_groups in Hc.
+  destruct (split_recompose a) as [Hrec Hfr]. destruct (split a) as [units fr] eqn:Es. simpl in Hrec, Hfr.
+  destruct (scatter_loop (scatter_fuel gs sel) gs sel units fr 0 wit []) as [[gs1 raw]| |] eqn:El; cbn [bind] in Hc; try discriminate.
+  inversion Hc; subst gs1 out. clear Hc.
+  destruct (scatter_loop_spec _ _ _ _ _ _ _ _ _ _ Hwf Hfr El) as (ws & fs & E & Hw & Hlen & Hfs & Hta).
+  simpl in E. subst raw.
+  assert (Hp : Permutation (isort aidx_le ws) ws) by apply isort_perm.
+  assert (Hws : Forall whole (isort aidx_le ws)) by (eapply Permutation_Forall; [apply Permutation_sym; eauto|auto]).
+  destruct Hfs as [[Hz ->]|(Hz & F & -> & HF)].
+  - rewrite app_nil_r in *. split; [rewrite <- (app_nil_r (isort aidx_le ws)); apply shape_ok_app; auto|].
+    split.
+    + rewrite <- (app_nil_r (isort aidx_le ws)). rewrite (total_app _ [] 0) by auto. rewrite (len_perm _ _ Hp). lia.
+    + rewrite (take_all_perm_whole _ _ Hp Hws). auto.
+  - rewrite isort_whole_frac by (auto; congruence).
+    split; [apply shape_ok_app; auto; right; exists F; split; auto; lia|].
+    split.
+    + rewrite (total_app _ [F] fr) by (auto; right; split; auto; exists F; auto). rewrite (len_perm _ _ Hp). lia.
+    + rewrite take_all_app in *. rewrite (take_all_perm_whole _ _ Hp Hws). auto.
+Qed.
+
+(** group pools: scatter, and compact / compact! with the groups chosen by the solver *)
+Theorem claim_complete_scatter full gs rid a wit p' ra :
+  gs_wf gs -> pool_claim (PGroups full gs) rid (Req Scatter a) wit = Ok (p', ra) ->
+  claim_ok (PGroups full gs) p' rid (Req Scatter a) ra = true.
+Proof.
+  intros Hwf Hc. unfold pool_claim in Hc.
+  destruct (claim_scatter_from_groups a gs None wit) as [[gs' out]| |] eqn:E; cbn [bind] in Hc; try discriminate.
+  inversion Hc; subst. destruct (claim_scatter_complete _ _ _ _ _ _ Hwf E) as (S1 & S2 & S3).
+  unfold claim_ok, ra_total. cbn [ra_res ra_amount ra_indices pool_full_size pool_groups req_amount].
+  rewrite !N.eqb_refl, S1, S2, N.eqb_refl, S3. simpl. apply groups_eqb_refl.
+Qed.
+
+Theorem claim_complete_compact full gs rid rq a mask wit p' ra :
+  gs_wf gs -> rq = Req Compact a \/ rq = Req ForceCompact a ->
+  claim_with_group_mask (PGroups full gs) rid rq mask wit = Ok (p', ra) ->
+  claim_ok (PGroups full gs) p' rid rq ra = true.
+Proof.
+  intros Hwf Hrq Hc. unfold claim_with_group_mask in Hc.
+  assert (Hc' : (do r <- claim_scatter_from_groups a gs (Some mask) wit; let '(gs', out) := r in Ok (PGroups full gs', mkRalloc rid a out)) = Ok (p', ra))
+    by (destruct Hrq; subst rq; auto).
+  clear Hc. destruct (claim_scatter_from_groups a gs (Some mask) wit) as [[gs' out]| |] eqn:E; cbn [bind] in Hc'; try discriminate.
+  inversion Hc'; subst. destruct (claim_scatter_complete _ _ _ _ _ _ Hwf E) as (S1 & S2 & S3).
+  unfold claim_ok, ra_total. cbn [ra_res ra_amount ra_indices pool_full_size pool_groups].
+  assert (Hra : req_amount rq full = a) by (destruct Hrq; subst rq; auto). rewrite Hra.
+  rewrite !N.eqb_refl, S1, S2, N.eqb_refl, S3. simpl. apply groups_eqb_refl.
 Qed.
